@@ -186,5 +186,42 @@ def fit_trace_py(task):
     return events
 
 
+def snvpost(task):
+    """real _homozygosity_probabilities on the TLC instance + _mcmc decisions just above / below the exact value"""
+    out = []
+    orig_d = M._denovo_assembler
+    try:
+        for st in task["states"]:
+            P, n, F = st["P"], st["n"], st["F"][0] / st["F"][1]
+            rd = st["reads"]
+            R = max(1, len(rd))
+            reads = np.full((R, 1, n), np.nan)
+            counts = np.ones(R, dtype=np.int64)
+            for i, (cell, c) in enumerate(rd):
+                counts[i] = c
+                if cell >= 0:
+                    reads[i, 0, :] = 0.125 / (n - 1)
+                    reads[i, 0, cell] = 0.875
+            hp = M._homozygosity_probabilities(reads, np.array([n], dtype=np.int8), P, F, counts)
+            res = {"hom": [float(x) for x in hp[0, :n]]}
+            dec = []
+            for thr in st.get("thresholds", []):
+                seen = {}
+
+                def da(**kw):
+                    seen["nhet"] = kw["genotype"].shape[1]
+                    return np.zeros((1, kw["steps"]) + kw["genotype"].shape, dtype=np.int8), np.zeros((1, kw["steps"]))
+
+                M._denovo_assembler = da
+                m = M.DenovoMCMC(ploidy=P, n_alleles=[n], steps=2, fix_homozygous=thr, inbreeding=F, random_seed=1)
+                g, _ = m._mcmc(reads, counts)
+                dec.append({"thr": thr, "sampled": seen.get("nhet", 0) == 1, "allele": int(np.asarray(g)[0, 0, 0])})
+            res["decisions"] = dec
+            out.append(res)
+    finally:
+        M._denovo_assembler = orig_d
+    return out
+
+
 def run(task):
-    return {"sweep_py": sweep_py, "sweep_jit": sweep_jit, "breaks": breaks, "fixhom": fixhom, "fit_trace_py": fit_trace_py}[task["op"]](task)
+    return {"snvpost": snvpost, "sweep_py": sweep_py, "sweep_jit": sweep_jit, "breaks": breaks, "fixhom": fixhom, "fit_trace_py": fit_trace_py}[task["op"]](task)
